@@ -17,7 +17,7 @@ done
   echo '# usage: demo.sh <repo-dir>   exit 0 = demonstration passes (property intact), non-zero = fails'
   echo 'D=$(cd "$(dirname "$0")" && pwd)'
   echo 'R=$(cd "$1" && pwd)'
-  sed -e '1{/^#!/d}' -e "s#/tmp/wt-$p/seed#\$D#g" -e "s#\\\$WT/seed#\$D#g" -e "s#\"\\\$WT\"/seed#\"\$D\"#g" -e "s#cp seed/#cp \"\$D\"/#g" -e "s#/tmp/wt-$p#\$R#g" "$src/run_demo.sh"
+  sed -e '1{/^#!/d}' -e "s#/tmp/wt-$p/seed#\$D#g" -e "s#\\\$WT/seed#\$D#g" -e "s#\"\\\$WT\"/seed#\"\$D\"#g" -e "s#cp seed/#cp \"\$D\"/#g" -e 's#"\$[A-Za-z_]*/seed/#"$D/#g'  -e 's#\$(cd "\$(dirname "\$0")/.." && pwd)#$R#' -e "s#/tmp/wt-$p#\$R#g" "$src/run_demo.sh"
 } > "$dst/demo.sh"
 chmod +x "$dst/demo.sh"
 if grep -n 'seed' "$dst/demo.sh" | grep -v 'seed_\|Seed\|_seed' ; then echo "^^^ check these lines of $dst/demo.sh"; fi
